@@ -230,19 +230,25 @@ def unms(t):
     return [u for x in t[2] for u in unms(x)] + [u for _, x in t[3] for u in unms(x)]
 
 
+def _par(txt, salt):
+    """redundant parentheses around some elements / keys (deterministic: decided by the text itself): they belong to the element, not to the container"""
+    import zlib
+    return f"({txt})" if zlib.crc32((salt + txt).encode()) % 6 == 0 else txt
+
+
 def render_tree(t):
     if t[0] == "leaf":
         return render_atom(t[1], t[2])
     if t[0] == "unm":
         return f"Is(V{t[1]})"
     if t[0] == "list":
-        return "[" + ", ".join(render_tree(x) for x in t[1]) + "]"
+        return "[" + ", ".join(_par(render_tree(x), "l") for x in t[1]) + "]"
     if t[0] == "tuple":
-        return "(" + ", ".join(render_tree(x) for x in t[1]) + ("," if len(t[1]) == 1 else "") + ")"
+        return "(" + ", ".join(_par(render_tree(x), "t") for x in t[1]) + ("," if len(t[1]) == 1 else "") + ")"
     if t[0] == "dict":
-        return "{" + ", ".join(f"{k}: {render_tree(x)}" for k, x in t[1]) + "}"
+        return "{" + ", ".join(f"{_par(str(k), 'k')}: {_par(render_tree(x), 'd')}" for k, x in t[1]) + "}"
     name = CLASSES[t[1]][0]
-    return name + "(" + ", ".join([render_tree(x) for x in t[2]] + [f"f{fid}={render_tree(x)}" for fid, x in t[3]]) + ")"
+    return name + "(" + ", ".join([_par(render_tree(x), "p") for x in t[2]] + [f"f{fid}={_par(render_tree(x), 'a')}" for fid, x in t[3]]) + ")"
 
 
 def render_val(v):
